@@ -762,7 +762,7 @@ class TT():
                     'Second operand must be the same type as the fisrt (both should be either TT matrices or TT tensors).')
             result = TT(cores_new)
 
-        elif isinstance(other, int) or isinstance(other, float) or isinstance(other, complex) or isinstance(other, tn.Tensor):
+        elif np.isscalar(other) or isinstance(other, tn.Tensor):
             if other != 0:
                 cores_new = [c+0 for c in self.cores]
                 cores_new[0] *= other
